@@ -51,6 +51,12 @@ def run(ctx):
             if i % 6 == 0:
                 cfg["K"] = min(6, cfg["K"] + 2)   # more clusters than regimes: empty final clusters are likely
             cfgs.append(cfg)
+        for i in range(9 if ctx.quick() else 90):
+            cfg = tu.gen_config(ctx.rng)
+            cfg["limit"] = 1
+            cfg["K"] = max(3, cfg["K"])
+            cfg["force_final"] = ["empty", "singleton", "pair"][i % 3]   # final labelling with a tiny cluster
+            cfgs.append(cfg)
 
     # ---------------- (a) per-cluster collection on synthetic inputs
     lines = []
@@ -92,18 +98,8 @@ def run(ctx):
             beta = np.round(rs.uniform(0, 30, size=npts) * 4) / 4
             beta[rs.rand(npts) < 0.2] = 0.0
         cfg_run = dict(cfg)
-        series = tu.config_data(cfg_run)
-        tu.seed_all(cfg["seed"])
-        import warnings
-        res = err = None
-        kwargs = tu.config_kwargs(cfg_run)
-        kwargs["label_switching_cost"] = beta
-        with warnings.catch_warnings():
-            warnings.simplefilter("ignore")
-            try:
-                res = tu.run_joint(series, **kwargs) if cfg["joint"] else tu.run_single(series[0], **kwargs)
-            except Exception as e:
-                err = e
+        cfg_run["beta"] = beta
+        res, _tr, err, series = tu.execute(cfg_run, trace=False)
         ctx.count("runs_joint" if cfg["joint"] else "runs_single")
         if err is not None:
             ctx.count("runs_raised:" + type(err).__name__)
@@ -117,7 +113,9 @@ def run(ctx):
             ctx.count("runs_with_empty_final_cluster")
         if isinstance(beta, np.ndarray):
             ctx.count("runs_vector_beta")
-        for (site, msg, extra) in oracles.result_consistency(res, K, beta, cfg["joint"]):
+        if cfg.get("force_final"):
+            ctx.count("runs_forced_final:" + cfg["force_final"])
+        for (site, msg, extra) in oracles.result_consistency(res, K, beta, cfg["joint"], check_cost=not cfg.get("force_final")):
             sig = {"site": site}
             sig.update(extra)
             ctx.violation("impl-violation", msg, cfg, sig)
